@@ -4,9 +4,10 @@ CONSTANTS
   MaxVer = 1
   MaxReorgs = 1
   MaxCrashes = 0
-  Gates = {}
+  Gates = {"acct"}
   Interleave = FALSE
-  Cfgs <- MCCfgs
+  Cfgs <- MCCfgsFork0
   OraclesFor <- MCOraclesA
 INVARIANTS TypeOK JobTimeRight JobCoversExactly NoSlotTwice OneJobPerDutySlot OnlyStrictlyLaterOnStart SyncWindowRight EpochTickOnce NoFutureDutyUnscheduled NoStaleJob ReorgActedOn
+CONSTRAINT NoOverlap
 CHECK_DEADLOCK FALSE
